@@ -236,6 +236,33 @@ pub fn run_child(spec: &crate::Spec) -> Report {
                     }
                 }
             }
+            // very long metrics into every buffered sink: an I/O error is fine, a panic is not
+            for big in [65507usize, 65508, 70000, 200_000] {
+                for cap in [0usize, 8, 512, 100_000] {
+                    for which in ["spy", "udp", "unix"] {
+                        let name = format!("buffers sink={} cap={} metric of {} bytes", which, cap, big);
+                        guarded(&mut rep, &name, |_| {
+                            let rx = crate::sock::Rx::unix("sweepbig");
+                            let udp_rx = crate::sock::Rx::udp(false).unwrap();
+                            let sink: Box<dyn MetricSink> = match which {
+                                "spy" => Box::new(BufferedSpyMetricSink::with_capacity(None, Some(cap)).1),
+                                "udp" => Box::new(BufferedUdpMetricSink::with_capacity(udp_rx.addr(), UdpSocket::bind("127.0.0.1:0").unwrap(), cap).unwrap()),
+                                _ => Box::new(BufferedUnixMetricSink::with_capacity(rx.path(), UnixDatagram::unbound().unwrap(), cap)),
+                            };
+                            let m = "k".repeat(big);
+                            let _ = sink.emit("a:1|c");
+                            let _ = sink.emit(&m);
+                            let _ = sink.emit("b:1|c");
+                            let _ = sink.flush();
+                            let _ = sink.emit(&m);
+                            let _ = sink.flush();
+                            drop(sink);
+                            let _ = rx.discard_all();
+                            let _ = udp_rx.discard_all();
+                        });
+                    }
+                }
+            }
             rep.sample(Json::obj().set("capacities", vec![0, 1, 2, 3]));
         }
         "queues" => {
